@@ -78,12 +78,32 @@ pub fn parse(text: &str, options: &Language) -> Result<Vec<Box<dyn Renderable>>>
     Ok(renderables)
 }
 
+/// Finds an integer literal in `pair` that does not fit the 64-bit integers of the value model.
+///
+/// The grammar accepts any number of digits, `parse_literal` can only convert what `i64` holds:
+/// whoever converts a `Pair` rejects it first if this returns `Some`.
+fn find_integer_overflow<'a>(pair: &Pair<'a>) -> Option<Pair<'a>> {
+    let overflows =
+        |p: &Pair<'a>| p.as_rule() == Rule::IntegerLiteral && p.as_str().parse::<i64>().is_err();
+    if overflows(pair) {
+        return Some(pair.clone());
+    }
+    pair.clone().into_inner().flatten().find(overflows)
+}
+
+fn integer_overflow_error(literal: Pair) -> Error {
+    error_from_pair(literal, "Integer literal is out of range.".to_owned())
+}
+
 /// Given a `Variable` as a string, parses it into a `Variable`.
 pub fn parse_variable(text: &str) -> Result<Variable> {
     let variable = LiquidParser::parse(Rule::Variable, text)
         .map_err(convert_pest_error)?
         .next()
         .expect("Parsing a variable failed.");
+    if let Some(literal) = find_integer_overflow(&variable) {
+        return Err(integer_overflow_error(literal));
+    }
 
     Ok(parse_variable_pair(variable))
 }
@@ -238,6 +258,9 @@ fn parse_filter(filter: Pair, options: &Language) -> Result<Box<dyn Filter>> {
 fn parse_filter_chain(chain: Pair, options: &Language) -> Result<FilterChain> {
     if chain.as_rule() != Rule::FilterChain {
         panic!("Expected an expression with filters.");
+    }
+    if let Some(literal) = find_integer_overflow(&chain) {
+        return Err(integer_overflow_error(literal));
     }
 
     let mut chain = chain.into_inner();
@@ -992,8 +1015,8 @@ impl<'a> TagToken<'a> {
     /// In this runtime, value refers to either a literal value or a variable.
     pub fn expect_value(mut self) -> TryMatchToken<'a, Expression> {
         match self.unwrap_value() {
-            Ok(t) => TryMatchToken::Matches(parse_value(t)),
-            Err(_) => {
+            Ok(t) if find_integer_overflow(&t).is_none() => TryMatchToken::Matches(parse_value(t)),
+            _ => {
                 self.expected.push(Rule::Value);
                 TryMatchToken::Fails(self)
             }
@@ -1003,8 +1026,8 @@ impl<'a> TagToken<'a> {
     /// Tries to obtain a `Variable` from this token.
     pub fn expect_variable(mut self) -> TryMatchToken<'a, Variable> {
         match self.unwrap_variable() {
-            Ok(t) => TryMatchToken::Matches(parse_variable_pair(t)),
-            Err(_) => {
+            Ok(t) if find_integer_overflow(&t).is_none() => TryMatchToken::Matches(parse_variable_pair(t)),
+            _ => {
                 self.expected.push(Rule::Variable);
                 TryMatchToken::Fails(self)
             }
@@ -1029,8 +1052,8 @@ impl<'a> TagToken<'a> {
     /// The value is returned as a `Value`.
     pub fn expect_literal(mut self) -> TryMatchToken<'a, Value> {
         match self.unwrap_literal() {
-            Ok(t) => TryMatchToken::Matches(parse_literal(t)),
-            Err(_) => {
+            Ok(t) if find_integer_overflow(&t).is_none() => TryMatchToken::Matches(parse_literal(t)),
+            _ => {
                 self.expected.push(Rule::Literal);
                 TryMatchToken::Fails(self)
             }
@@ -1042,7 +1065,7 @@ impl<'a> TagToken<'a> {
     pub fn expect_range(mut self) -> TryMatchToken<'a, (Expression, Expression)> {
         let token = self.token.clone();
 
-        if token.as_rule() != Rule::Range {
+        if token.as_rule() != Rule::Range || find_integer_overflow(&token).is_some() {
             self.expected.push(Rule::Range);
             return TryMatchToken::Fails(self);
         }
